@@ -5,3 +5,5 @@ cd "$(dirname "$0")/.."
 mkdir -p out
 make -C sim -j16 >out/setup.log 2>&1 || { tail -30 out/setup.log; exit 2; }
 echo "simq built: $(ls -la out/simq | awk '{print $5}') bytes"
+# differential self-test of the simulated kernel against this host's kernel (informational; see DESIGN 10.7)
+IMG=$(tools/build_repo.sh 2>>out/setup.log) && out/simq selftest --images "$IMG" --n 1000 2>/dev/null | tail -3 || true
